@@ -583,6 +583,10 @@ impl Check for BackupCheck {
         let mode = gen_mode(&mut rng);
         let prefix_len = if concurrent && rng.chance(0.5) { rng.range(0, ops.len() as u64) as usize } else { 0 };
         let mut close_at_end = rng.chance(0.5);
+        if concurrent && avoid.iter().any(|a| a == "backup_concurrent_with_close") {
+            // F45: the close-time log rewrite is not coordinated with a running backup either
+            close_at_end = false;
+        }
         if avoid.iter().any(|a| a == "label_ops_with_checkpoint") {
             // F05: the close-time log rewrite drops every label but the creation label
             let label_rich = ops.iter().any(|o| match o {
